@@ -81,8 +81,10 @@ static unsigned run_token(const char *tok, int log_all, int cls)
 		vh_set_prov(CHK_PROV[i]);
 		rc = jwt_checker_verify(CHK[i], copy);
 		n_verify++;
-		if (rc == 0) { mask |= 1u << i; n_accept++; }
-		else if (!jwt_checker_error(CHK[i])) mask |= 1u << 31;	/* C14's business; recorded only */
+		/* bits 29-31 are C14's business; recorded only */
+		if (rc == 0) { mask |= 1u << i; n_accept++; if (jwt_checker_error(CHK[i]) || jwt_checker_error_msg(CHK[i])[0]) mask |= 1u << 29; }
+		else if (!jwt_checker_error(CHK[i])) mask |= 1u << 31;
+		else if (!jwt_checker_error_msg(CHK[i])[0]) mask |= 1u << 30;
 		jwt_checker_error_clear(CHK[i]);
 	}
 	if (mask || log_all || (n_tokens % 499) == 0) {
@@ -282,7 +284,14 @@ static void gen_case(long idx)
 	}
 	case 15: { /* header alg differs from key / unknown but well formed */
 		static const char *ALGS[] = { "none", "HS256", "HS384", "RS256", "ES256", "ES384", "EdDSA", "PS256", "ES256K", "HS512" };
-		char hdr[64]; snprintf(hdr, sizeof(hdr), "{\"alg\":\"%s\"}", ALGS[vh_below(&rng, 10)]);
+		char hdr[6000];
+		if (vh_below(&rng, 4) == 0) {
+			/* unknown alg names of many lengths (they end up in an error message of bounded size) */
+			static const int LEN[] = { 3, 100, 200, 230, 238, 239, 240, 241, 242, 250, 254, 255, 256, 257, 300, 1000, 5000 };
+			int n = LEN[vh_below(&rng, 17)], o = sprintf(hdr, "{\"alg\":\"");
+			memset(hdr + o, "AZx%"[vh_below(&rng, 4)], (size_t)n); strcpy(hdr + o + n, "\"}");
+		} else
+			snprintf(hdr, sizeof(hdr), "{\"alg\":\"%s\"}", ALGS[vh_below(&rng, 10)]);
 		{ const char *pl = PAYLOADS[vh_below(&rng, 9)]; tok = token_from_parts(hdr, strlen(hdr), pl, strlen(pl), kidx); }
 		break;
 	}
